@@ -54,6 +54,8 @@ func checkC07(c *Ctx, r *Report) {
 	borrow(c, r, c05R5, "C05.R5.ttl-range", "C07.R3.ttl-range", 1, "stringToTTL refuses what does not fit 32 bits instead of wrapping", nil, "an over-long TTL is accepted as another value and the zone is read on instead of the first problem being reported")
 	genericLengthOnDigits(c, r, "C07.R3.generic-length")
 	parseErrorsUsed(c, r, "C07.R3.parse-errors-used")
+	nestedGenerateBanned(c, r, "C07.R2.nested-generate-banned")
+	stickyOnErrorOnly(c, r, "C07.R3.sticky-on-error-only")
 }
 
 var fileOpeners = map[string]bool{"os.Open": true, "os.OpenFile": true, "os.ReadFile": true, "os.Create": true, "fs.ReadFile": true, "ioutil.ReadFile": true, "os.ReadDir": true, "(fs.FS).Open": true, "(io/fs.FS).Open": true}
